@@ -200,7 +200,9 @@ def gen_session(rng, root):
         d = rng.choice(docnames)
         if d not in open_docs:
             t = gen_text(rng, docnames, d)
-            msgs.append(("open", d, t))
+            # "any sequence of open, change and close": a change may also arrive for a document that is not open (never opened, or
+            # closed before) - full-text sync makes it the current text all the same
+            msgs.append(("change" if rng.random() < 0.2 else "open", d, t))
             open_docs[d] = t
             msgs.extend(column_sweep(rng, d, t))
             continue
